@@ -15,7 +15,9 @@ PROPERTY = 'C15'
 LEVEL = 'exploration'
 RULE = ('Reorg limit in {1,2,3,5,8, larger than the chain}; chains of 6..30 blocks; the daemon\'s tip '
         'is revealed in generated instalments during initial sync (so blocks inside the final '
-        'window are indexed while the daemon is far ahead / just ahead / equal); generated '
+        'window are indexed while the daemon is far ahead / just ahead / equal), and in a third of '
+        'the cases the daemon\'s best chain loses its top 1..6 blocks at the n-th daemon call of '
+        'the initial sync (its reported height decreases); generated '
         'sequence of restarts, extensions and reorganisations — natural forks and forced reorgs of '
         'depth drawn from {1, limit-1, limit} (clamped to the statement\'s precondition). Oracle: '
         'after every catch-up the undo keys in the UTXO DB include every height of '
@@ -45,14 +47,18 @@ OP = st.one_of(
 ).map(list)
 
 CASE = st.builds(
-    lambda a, p, r, init, reveals, ops, lat: {
+    lambda a, p, r, init, reveals, ops, lat, shrink: {
         'activation': a, 'prefetch': p, 'reorg_limit': r, 'init': init,
-        'reveals': [[1 + h % len(init), k] for h, k in reveals], 'ops': ops, 'lat': lat},
+        'reveals': [[1 + h % len(init), k] for h, k in reveals], 'ops': ops, 'lat': lat,
+        'shrink': shrink},
     st.integers(0, 9), st.integers(1, 8), st.sampled_from([1, 2, 3, 5, 8, 100]),
     st.lists(scenario.block_desc(max_txs=3), min_size=6, max_size=30),
     st.lists(st.tuples(st.integers(0, 40), st.integers(1, 25)).map(list), max_size=3),
     st.lists(OP, min_size=1, max_size=6),
-    st.lists(st.integers(0, 2), max_size=30))
+    st.lists(st.integers(0, 2), max_size=30),
+    # the daemon's reported height goes DOWN during initial sync (failover to a lagging daemon,
+    # invalidateblock): at the n-th daemon call its best chain loses its top k blocks
+    st.none() | st.none() | st.tuples(st.integers(1, 6), st.integers(2, 14)).map(list))
 
 
 class WindowMachine(Machine):
@@ -64,6 +70,7 @@ class WindowMachine(Machine):
         super().__init__(scratch, case)
         self.first = True
         self.indexed_at_daemon_height = {}
+        self.last_polled = None
 
     def prepare_node(self):
         node = self.node
@@ -73,16 +80,42 @@ class WindowMachine(Machine):
             driver = scenario.RevealDriver(node.daemon, self.case['reveals'], self.world.height)
             driver_hook = node.daemon.on_call
 
+            shrink = list(self.case.get('shrink') or ())
+            machine = self
+
             def both(name):
                 driver_hook(name)
                 machine_hook(name)
+                if shrink:
+                    shrink[1] -= 1
+                    # (only as the daemon answers a height request: a chain that shrinks between
+                    # the height and the hashes request makes the hashes request fail with
+                    # "Block height out of range", which the block processor does not survive -
+                    # outside this property)
+                    if shrink[1] <= 0 and name == 'height':
+                        k = shrink[0]
+                        del shrink[:]
+                        w = machine.world
+                        tip = w.best
+                        for _ in range(k):
+                            if tip.parent is not None and tip.parent.height >= 2:
+                                tip = tip.parent
+                        indexed = node.bp.state.height if node.bp.state is not None else -1
+                        if tip is not w.best and indexed < tip.height:
+                            w.set_best(tip)
+                            machine.max_tip_seen = w.height
+                            machine.info['classes'].add('daemon_height_decreased_during_sync')
+                if name == 'height':
+                    machine.last_polled = len(node.daemon._chain()) - 1
             node.daemon.on_call = both
         # remember the daemon height each block was indexed at
         real = node.bp.advance_block
 
         def advance_block(block):
             real(block)
-            self.indexed_at_daemon_height[node.bp.state.height] = node.daemon.cached_height()
+            # (what the daemon answered to the processor's last height request - what an
+            # unchanged client has cached - not the client's own cache)
+            self.indexed_at_daemon_height[node.bp.state.height] = self.last_polled
         node.bp.advance_block = advance_block
 
     async def new_node(self):
@@ -106,10 +139,15 @@ class WindowMachine(Machine):
         want = set(range(max(1, h - self.limit + 1), h + 1))
         missing = sorted(want - keys)
         if missing:
+            at = [self.indexed_at_daemon_height.get(m) for m in missing]
+            sig = 'undo_missing'
+            if all(a is not None and a > h and m < a - self.limit + 1 for m, a in zip(missing, at)):
+                # every missing block was below the window of the (greater) height the daemon
+                # reported when it was indexed; the daemon's height has decreased since
+                sig = 'undo_missing:daemon_reported_greater_height_when_indexed'
             raise Violation(f'caught up at height {h} with reorg limit {self.limit}: no undo '
                             f'information for heights {missing[:8]} (indexed while the daemon '
-                            f'reported {[self.indexed_at_daemon_height.get(m) for m in missing[:8]]})',
-                            'undo_missing')
+                            f'reported {at[:8]})', sig)
         if any(self.indexed_at_daemon_height.get(x, h) > x and
                self.indexed_at_daemon_height.get(x, h) != h for x in want):
             self.info['classes'].add('window_block_indexed_before_final_height')
